@@ -60,6 +60,9 @@ def collect(recs, perm=None):
                     z = cplx(v)
                     vals += [z.real, z.imag]
                 out["sus|%s" % ",".join(str(P(x)) for x in o["q"])] = vals
+    for name, vals in out.items():
+        if any(not math.isfinite(v) for v in vals):
+            raise RuntimeError("observable %s is not finite: %s" % (name, vals[:6]))
     return out
 
 
